@@ -20,7 +20,14 @@ Cases == {[lens |-> l, strategy |-> s, seed |-> 11, epoch |-> e, pipeline |-> p,
          \cup {[lens |-> l, strategy |-> s, seed |-> 0 - 1, epoch |-> 0, pipeline |-> "none",
            runs |-> RunsOf(w, 0, 0 - 1, ff, FALSE, 2)] :
              l \in Lens, s \in {"sequential", "interleaved", "weighted"}, w \in 1..2, ff \in {0, 3}}
+\* groups whose files contain a line that cannot be parsed (bad = keys <<file, line>>, 0-based; not for the weighted strategy,
+\* whose order cannot be predicted): the line keeps its place in the enumeration, so the ranks still share the rest
+BadCases == {[lens |-> c[1], strategy |-> s, seed |-> 11, epoch |-> 0, pipeline |-> "none", bad |-> c[2],
+              runs |-> RunsOf(w, sk, lim, ff, FALSE, 2)] :
+                c \in {<< <<5>>, << <<0, 0>> >> >>, << <<5>>, << <<0, 2>>, <<0, 3>> >> >>, << <<2, 4>>, << <<1, 1>> >> >>, << <<0, 3, 2>>, << <<1, 0>>, <<2, 1>> >> >>},
+                s \in {"sequential", "interleaved"}, w \in 1..3, sk \in 0..1, lim \in {0 - 1, 4}, ff \in {0, 1}}
 VARIABLE x
-Init == x = 0 /\ ndJsonSerialize(IOEnv.OUT, SetToSeq({c \in Cases : c.strategy # "weighted" \/ \A k \in 1..Len(c.lens) : c.lens[k] > 0}))
+Init == x = 0 /\ ndJsonSerialize(IOEnv.OUT, SetToSeq({c \in Cases : c.strategy # "weighted" \/ \A k \in 1..Len(c.lens) : c.lens[k] > 0})
+                                                  \o SetToSeq(BadCases))
 Next == UNCHANGED x
 =============================================================================
